@@ -27,6 +27,7 @@ func runC01(c *Ctx) {
 	r01_7(c, "R01.7")
 	r01_8(c, "R01.8")
 	r01_9(c, "R01.9")
+	r01_11(c, "R01.11")
 	// stale entries are deleted unless they lie below an already removed
 	// directory: the suppression prefix must be separator-terminated (shared with C05)
 	r05_4(c, "R01.10")
@@ -464,8 +465,11 @@ func r01_6(c *Ctx, rule string) {
 			}
 			n++
 			okV := isFieldLoad(mu.Value, "types.Stat.ModTime")
-			okK := c.DerivesFrom(mu.Key, func(v ssa.Value) bool { return isFieldLoad(v, "fsutil.DiskWriter.dest") }, 4)
-			c.R.Check(okV && okK, rule, c.name(hc)+"/dirModTimes-record", c.pos(mu), "dirModTimes[destPath] = stat.ModTime", "the directory time is not recorded as dirModTimes[destPath] = stat.ModTime")
+			// the key is the FINAL path Join(dest, p) - the one Wait's walk will
+			// see - not the temporary name the directory may be created under
+			parts, isJoin := c.joinParts(eng.Canon(mu.Key))
+			okK := isJoin && len(parts) == 2 && parts[0] == "field:fsutil.DiskWriter.dest" && strings.HasPrefix(parts[1], "p:")
+			c.R.Check(okV && okK, rule, c.name(hc)+"/dirModTimes-record", c.pos(mu), "dirModTimes[destPath] = stat.ModTime", "the directory time is not recorded as dirModTimes[Join(dest, p)] = stat.ModTime (a directory created under a temporary name and renamed is looked up by its final path: the record is never found and the mtime is that of its last child)")
 			ok2, _, _ := c.Precedes(hc, nil, nil, c.callPred("os.Mkdir"), func(x ssa.Instruction) bool { return x == in })
 			c.R.Check(ok2, rule, c.name(hc)+"/dirModTimes-on-mkdir", c.pos(mu), "recorded on the Mkdir arm", "the directory time is recorded on a path that did not create the directory")
 		})
@@ -610,6 +614,64 @@ var r018Exceptions = map[string]string{
 	"fsutil.(*lazyFileWriter).Write/os.Stat":                                 "part of the permission retry: on failure the original open error is returned",
 	"fsutil.(*lazyFileWriter).Write/os.Chmod":                                "part of the permission retry: on failure the original open error is returned",
 	"fsutil.(*receiver).run/os.Remove":                                       "removing a pre-existing listing file is best effort; the following OpenFile is checked",
+}
+
+// R01.11: a directory that stays a directory keeps its content.
+func r01_11(c *Ctx, rule string) {
+	c.R.Rule(rule, "DiskWriter.HandleChange: when the existing destination entry and the incoming entry are both directories nothing is removed, renamed or re-created (whatever else differs between them: permission, setuid/setgid/sticky bits, owner, times) - the old directory's content is the merge base and, outside merge mode, is cleaned up entry by entry by the diff")
+	hc := c.Fn(rule, "fsutil.(*DiskWriter).HandleChange")
+	if hc == nil {
+		return
+	}
+	x := c.explorer(hc)
+	fiParam := ssa.Value(hc.Params[3])
+	isFi := func(v ssa.Value) bool { return eng.Canon(v) == fiParam }
+	isOld := func(v ssa.Value) bool {
+		return !isFi(v) && c.DerivesFrom(v, func(y ssa.Value) bool { return c.isCallValueTo(y, "os.Lstat") }, 5)
+	}
+	as := map[string]bool{}
+	nOld, nNew := 0, 0
+	for _, k := range c.dirTestKeys(hc, x, isOld) {
+		as[k] = true
+		nOld++
+	}
+	for _, k := range c.dirTestKeys(hc, x, isFi) {
+		as[k] = true
+		nNew++
+	}
+	var lst ssa.CallInstruction
+	for _, call := range c.P.CallsTo(hc, "os.Lstat") {
+		lst = call
+	}
+	if lst == nil || nOld == 0 || nNew == 0 {
+		c.R.Fail(rule, c.name(hc)+"/dir-over-dir-keeps-content", c.P.Pos(hc.Pos()), "HandleChange does not test both the existing and the incoming entry for being directories: an existing directory cannot be recognised as the one to keep")
+		return
+	}
+	ek, _, _ := c.errValueOf(lst)
+	as["("+ek+"==nil)"] = true
+	as["("+c.reg(lst.Value())+"#0==nil)"] = false
+	// kind is not delete
+	eng.Instrs(hc, func(in ssa.Instruction) {
+		if bo, ok := in.(*ssa.BinOp); ok && (bo.Op == token.EQL || bo.Op == token.NEQ) {
+			if p, isP := bo.X.(*ssa.Parameter); isP && strings.HasSuffix(types.TypeString(p.Type(), nil), "ChangeKind") {
+				if k, isK := eng.ConstInt(bo.Y); isK {
+					if del, okc := c.packetLikeConst("fsutil", "ChangeKindDelete"); okc && k == del {
+						as[x.KeyAtEntry(bo)] = bo.Op == token.NEQ
+					}
+				}
+			}
+		}
+	})
+	destructive := c.callPred("os.RemoveAll", "os.Remove", "os.Rename", "fsutil.renameFile", "os.Mkdir")
+	hit, und := c.ReachableUnder(hc, as, nil, destructive)
+	switch {
+	case und:
+		c.R.Undecided(rule, c.name(hc)+"/dir-over-dir-keeps-content", c.P.Pos(hc.Pos()), "state limit")
+	case hit != nil:
+		c.R.Fail(rule, c.name(hc)+"/dir-over-dir-keeps-content", c.pos(hit.Instr), "with an existing directory and an incoming directory a removal, rename or re-creation is reachable (the 'same type' test looks at more than the directory bit): the old directory is deleted with everything below it - in merge mode entries the source never replaces are lost; path "+eng.BlockTrace(hc, hit.Trace))
+	default:
+		c.R.OK(rule, c.name(hc)+"/dir-over-dir-keeps-content", c.P.Pos(hc.Pos()), "directory over directory: metadata only")
+	}
 }
 
 // statSizeAlways: for a non-directory no success return of mkstat is
